@@ -133,7 +133,12 @@ class C11(PropBase):
                         rng.setstate(state_j)
                         files = sorted(r for sid, r in rel[cfg].items() if is_file(sid))
                         dirs = sorted(r for sid, r in rel[cfg].items() if not is_file(sid))
-                        for jp, kind in self.junk(rng, files, dirs):
+                        cand = self.junk(rng, files, dirs)
+                        # junk must not conform to any template: ask the implementation (a conforming path is an entity, not junk)
+                        probe = core.run_impl(ctx['ws'], [('path_owner', [roots[cfg] + '/' + jp, cfg]) for jp, _ in cand], confdir=ctx['confdir'])
+                        for (jp, kind), pr in zip(cand, probe):
+                            if pr[0] == 'ok' and pr[1][0][1]:
+                                continue
                             more.append(Case('fs_put', [roots[cfg] + '/' + jp, kind] + ([[['a', 'b']]] if kind == 'json' else []), 'setup', {}))
                 # the list of existing Sids with all ancestors that have a path (per default configuration)
                 L = sorted(ent.get(default, {}).keys())
